@@ -133,6 +133,15 @@ var c08Corpus = []string{
 	`show graphs ;`,
 	`select ?s from ?g where { ?s "p"@[] ?o } having ?s < /u<a> ;`,
 	`select ?o from ?g where { ?s "q"@[] ?o } having ?o > "3"^^type:int64 ;`,
+	`select ?s, ?oid from ?g where { ?s ?p ?o id ?oid } ;`,
+	`select ?s, ?ot from ?g where { ?s ?p ?o type ?ot } ;`,
+	`select ?s, ?o, ?oid from ?g where { /u<a> "p"@[] ?x . optional { ?s ?p ?o id ?oid } } ;`,
+	`select ?s, ?o, ?ot from ?g where { /u<a> "p"@[] ?x . optional { ?s ?p ?o type ?ot } } ;`,
+	`select ?s, ?t from ?g where { /u<a> "p"@[] ?x . optional { ?s ?p at ?t ?o } } ;`,
+	`select ?s, ?t from ?g where { /u<a> "p"@[] ?x . optional { ?s "q"@[?t] ?o } } ;`,
+	`select ?s, ?o, ?t from ?g where { /u<a> "p"@[] ?x . optional { ?s ?p ?o at ?t } } ;`,
+	`select ?sid, ?pid from ?g where { ?s id ?sid ?p id ?pid ?o } ;`,
+	`select ?st from ?g where { ?s type ?st "p"@[] ?o } ;`,
 }
 
 // C08 (corpus): awkward but well-formed statements (aggregates over empty
